@@ -682,8 +682,33 @@ func executeDirectives(inst *Instance, filename string,
 	return nil
 }
 
-func startServers(serverList []Server, inst *Instance, restartFds map[string]restartTriple) error {
+func startServers(serverList []Server, inst *Instance, restartFds map[string]restartTriple) (startErr error) {
 	errChan := make(chan error, len(serverList))
+
+	// If anything fails before the servers are running, close every
+	// listener opened (or duplicated) so far, including those of the
+	// server that failed, so that a failed start leaves no sockets behind.
+	var curLn *net.Listener
+	var curPc *net.PacketConn
+	defer func() {
+		if startErr == nil {
+			return
+		}
+		if curLn != nil && *curLn != nil {
+			(*curLn).Close()
+		}
+		if curPc != nil && *curPc != nil {
+			(*curPc).Close()
+		}
+		for _, s := range inst.servers {
+			if s.listener != nil {
+				s.listener.Close()
+			}
+			if s.packet != nil {
+				s.packet.Close()
+			}
+		}
+	}()
 
 	// used for signaling to error logging goroutine to terminate
 	stopChan := make(chan struct{})
@@ -696,6 +721,7 @@ func startServers(serverList []Server, inst *Instance, restartFds map[string]res
 			pc  net.PacketConn
 			err error
 		)
+		curLn, curPc = &ln, &pc
 
 		// if performing an upgrade, obtain listener file descriptors
 		// from parent process
@@ -781,6 +807,7 @@ func startServers(serverList []Server, inst *Instance, restartFds map[string]res
 		}
 
 		inst.servers = append(inst.servers, ServerListener{server: s, listener: ln, packet: pc})
+		curLn, curPc = nil, nil
 	}
 
 	for _, s := range inst.servers {
